@@ -3,6 +3,7 @@ package ischema
 import (
 	"fmt"
 	"sort"
+	"strings"
 
 	"github.com/jsightapi/jsight-schema-core/bytes"
 	"github.com/jsightapi/jsight-schema-core/errs"
@@ -33,7 +34,16 @@ func (s ISchema) TypeNames() []string {
 	for name := range s.types {
 		names = append(names, name)
 	}
-	sort.Strings(names)
+	// Named types first: the generated names of unnamed types ("#0xc000...") are
+	// heap addresses, and an error found inside one of them would be attributed to
+	// that address instead of the named type that contains it.
+	sort.Slice(names, func(i, j int) bool {
+		ui, uj := !strings.HasPrefix(names[i], "@"), !strings.HasPrefix(names[j], "@")
+		if ui != uj {
+			return uj
+		}
+		return names[i] < names[j]
+	})
 	return names
 }
 
